@@ -56,6 +56,7 @@ type edgeIn struct {
 	cond *Term
 	env  map[ssa.Value]Val
 	mem  *Mem
+	gh   *Ghost
 	from *ssa.BasicBlock
 	st   pathFlags
 }
@@ -69,6 +70,7 @@ type xnode struct {
 	blk   *ssa.BasicBlock
 	ctx   string
 	cnt   map[int]int // loop ordinal -> iteration count (unrolled loops only)
+	tag   string      // path tag for tail duplication
 	in    []edgeIn
 	succs []*xnode
 	mark  int
@@ -78,6 +80,7 @@ type retRec struct {
 	cond *Term
 	vals []Val
 	mem  *Mem
+	gh   *Ghost
 	st   pathFlags
 }
 
@@ -89,6 +92,7 @@ type Frame struct {
 	params   []Val
 	free     []Val
 	entryMem *Mem
+	entryGh  *Ghost
 	loops    []*loopInfo
 	loopOf   map[*ssa.BasicBlock]*loopInfo // header -> loop
 	nodes    map[string]*xnode
@@ -101,6 +105,10 @@ type Frame struct {
 	entryAsm int
 	defers   []*ssa.Defer
 	retPos    token.Pos
+	preGhost  *Ghost
+	curBlock  *ssa.BasicBlock
+	tails     map[*ssa.BasicBlock]int
+	noTailSplit bool
 	callOrd   map[*ssa.Call]int
 	loopEntry map[*loopInfo]*Mem
 	decHead   map[*loopInfo]*Term
@@ -242,14 +250,54 @@ func ctxString(cnt map[int]int) string {
 	return sb.String()
 }
 
-func (f *Frame) getNode(b *ssa.BasicBlock, cnt map[int]int) (*xnode, bool) {
-	key := fmt.Sprintf("%d|%s", b.Index, ctxString(cnt))
+func (f *Frame) getNode(b *ssa.BasicBlock, cnt map[int]int, tag string) (*xnode, bool) {
+	key := fmt.Sprintf("%d|%s|%s", b.Index, ctxString(cnt), tag)
 	if n, ok := f.nodes[key]; ok {
 		return n, false
 	}
-	n := &xnode{blk: b, ctx: ctxString(cnt), cnt: cnt}
+	n := &xnode{blk: b, ctx: ctxString(cnt) + tag, cnt: cnt, tag: tag}
 	f.nodes[key] = n
 	return n, true
+}
+
+// tailSize: number of blocks reachable from b if that region is small and
+// loop-free (a "tail" of the function), else -1. Joins inside tails are not
+// merged: each incoming path gets its own copy of the tail, so that
+// postconditions are checked on path-specific (syntactically simpler) states.
+func (f *Frame) tailSize(b *ssa.BasicBlock) int {
+	if f.tails == nil {
+		f.tails = map[*ssa.BasicBlock]int{}
+	}
+	if v, ok := f.tails[b]; ok {
+		return v
+	}
+	seen := map[*ssa.BasicBlock]bool{}
+	stack := []*ssa.BasicBlock{b}
+	ok := true
+	for len(stack) > 0 && ok {
+		x := stack[len(stack)-1]
+		stack = stack[:len(stack)-1]
+		if seen[x] {
+			continue
+		}
+		seen[x] = true
+		if len(seen) > 10 || f.loopOf[x] != nil {
+			ok = false
+			break
+		}
+		for _, li := range f.loops {
+			if li.body[x] {
+				ok = false
+			}
+		}
+		stack = append(stack, x.Succs...)
+	}
+	r := -1
+	if ok {
+		r = len(seen)
+	}
+	f.tails[b] = r
+	return r
 }
 
 type loopMode int
@@ -303,13 +351,21 @@ func (f *Frame) succTarget(n *xnode, v *ssa.BasicBlock) (*xnode, string, *loopIn
 			}
 		}
 	}
-	x, _ := f.getNode(v, cnt)
+	tag := n.tag
+	if len(v.Preds) > 1 {
+		if f.tailSize(v) > 0 && len(f.nodes) < 400 && !f.noTailSplit {
+			tag = fmt.Sprintf("%s/%d", n.tag, u.Index)
+		} else {
+			tag = ""
+		}
+	}
+	x, _ := f.getNode(v, cnt, tag)
 	return x, "", nil
 }
 
 // expand builds the DAG and returns it in topological order.
 func (f *Frame) expand() []*xnode {
-	entry, _ := f.getNode(f.fn.Blocks[0], map[int]int{})
+	entry, _ := f.getNode(f.fn.Blocks[0], map[int]int{}, "")
 	var order []*xnode
 	// iterative DFS for post-order
 	type item struct {
@@ -359,7 +415,76 @@ type execState struct {
 	reach *Term
 	env   map[ssa.Value]Val
 	mem   *Mem
+	gh    *Ghost
 	st    pathFlags
+}
+
+// Ghost is specification-only state threaded through execution like memory:
+// scalar ghost variables (outlen, inpos, inlen) and ghost byte streams (out,
+// in), each its own memory so that it never interferes with the real one.
+type Ghost struct {
+	sc map[string]*Term
+	mm map[string]*Mem
+}
+
+var ghostScalars = []string{"outlen", "inpos", "inlen"}
+var ghostMems = []string{"out", "in"}
+
+func (e *Engine) freshGhost(hint string) *Ghost {
+	g := &Ghost{sc: map[string]*Term{}, mm: map[string]*Mem{}}
+	for _, n := range ghostScalars {
+		g.sc[n] = e.tb.Fresh("ghost."+n+hint, BV(64))
+	}
+	for _, n := range ghostMems {
+		g.mm[n] = e.mc.Base("ghost." + n + hint)
+	}
+	return g
+}
+
+func (g *Ghost) withScalar(n string, t *Term) *Ghost {
+	r := &Ghost{sc: map[string]*Term{}, mm: g.mm}
+	for k, v := range g.sc {
+		r.sc[k] = v
+	}
+	r.sc[n] = t
+	return r
+}
+
+func (g *Ghost) withMem(n string, m *Mem) *Ghost {
+	r := &Ghost{sc: g.sc, mm: map[string]*Mem{}}
+	for k, v := range g.mm {
+		r.mm[k] = v
+	}
+	r.mm[n] = m
+	return r
+}
+
+func (e *Engine) mergeGhost(conds []*Term, gs []*Ghost) *Ghost {
+	same := true
+	for _, g := range gs[1:] {
+		if g != gs[0] {
+			same = false
+		}
+	}
+	if same {
+		return gs[0]
+	}
+	r := &Ghost{sc: map[string]*Term{}, mm: map[string]*Mem{}}
+	for _, n := range ghostScalars {
+		v := gs[len(gs)-1].sc[n]
+		for i := len(gs) - 2; i >= 0; i-- {
+			v = e.tb.Ite(conds[i], gs[i].sc[n], v)
+		}
+		r.sc[n] = v
+	}
+	for _, n := range ghostMems {
+		ms := make([]*Mem, len(gs))
+		for i, g := range gs {
+			ms[i] = g.mm[n]
+		}
+		r.mm[n] = e.mc.Merge(conds, ms)
+	}
+	return r
 }
 
 func (f *Frame) mergeIn(n *xnode) *execState {
@@ -379,14 +504,17 @@ func (f *Frame) mergeIn(n *xnode) *execState {
 	st := &execState{env: map[ssa.Value]Val{}}
 	var conds []*Term
 	var mems []*Mem
+	var ghs []*Ghost
 	for _, in := range live {
 		conds = append(conds, in.cond)
 		mems = append(mems, in.mem)
+		ghs = append(ghs, in.gh)
 		st.st.bounded = st.st.bounded || in.st.bounded
 		st.st.cut = st.st.cut || in.st.cut
 	}
 	st.reach = tb.Or(conds...)
 	st.mem = e.mc.Merge(conds, mems)
+	st.gh = e.mergeGhost(conds, ghs)
 	if len(live) == 1 {
 		for k, v := range live[0].env {
 			st.env[k] = v
@@ -449,10 +577,10 @@ func predIndex(b, from *ssa.BasicBlock) int {
 }
 
 // run executes the frame. Returns merged results.
-func (f *Frame) run(args []Val, free []Val, mem *Mem, reach *Term, st0 pathFlags) (Val, *Mem, pathFlags, *Term) {
+func (f *Frame) run(args []Val, free []Val, mem *Mem, gh *Ghost, reach *Term, st0 pathFlags) (Val, *Mem, *Ghost, pathFlags, *Term) {
 	e := f.e
 	tb := e.tb
-	f.params, f.free, f.entryMem = args, free, mem
+	f.params, f.free, f.entryMem, f.entryGh = args, free, mem, gh
 	f.entryAsm = len(e.assumes)
 	if len(f.fn.Blocks) == 0 {
 		panic("no body: " + f.fn.String())
@@ -465,7 +593,7 @@ func (f *Frame) run(args []Val, free []Val, mem *Mem, reach *Term, st0 pathFlags
 	for i, fv := range f.fn.FreeVars {
 		env0[fv] = free[i]
 	}
-	order[0].in = []edgeIn{{cond: reach, env: env0, mem: mem, st: st0}}
+	order[0].in = []edgeIn{{cond: reach, env: env0, mem: mem, gh: gh, st: st0}}
 	for _, n := range order {
 		st := f.mergeIn(n)
 		if st == nil {
@@ -480,14 +608,16 @@ func (f *Frame) run(args []Val, free []Val, mem *Mem, reach *Term, st0 pathFlags
 	}
 	// merge returns
 	if len(f.rets) == 0 {
-		return nil, mem, st0, tb.False()
+		return nil, mem, gh, st0, tb.False()
 	}
 	var conds []*Term
 	var mems []*Mem
+	var ghs []*Ghost
 	var flags pathFlags
 	for _, r := range f.rets {
 		conds = append(conds, r.cond)
 		mems = append(mems, r.mem)
+		ghs = append(ghs, r.gh)
 		flags.bounded = flags.bounded || r.st.bounded
 		flags.cut = flags.cut || r.st.cut
 	}
@@ -514,7 +644,7 @@ func (f *Frame) run(args []Val, free []Val, mem *Mem, reach *Term, st0 pathFlags
 	if f.top {
 		f.checkEnsuresPaths(flags)
 	}
-	return res, outMem, flags, tb.Or(conds...)
+	return res, outMem, e.mergeGhost(conds, ghs), flags, tb.Or(conds...)
 }
 
 func (f *Frame) oblID(kind, label string) string {
@@ -588,6 +718,7 @@ func (e *Engine) position(p token.Pos) token.Position {
 func (f *Frame) cutLoop(n *xnode, li *loopInfo, st *execState) {
 	e := f.e
 	tb := e.tb
+	f.curBlock = n.blk
 	// 0. implicit invariant of go/ssa's range-over-slice lowering: the index
 	// phi starts at -1 and only ever increments below the length. It is
 	// checked like a declared invariant (entry here, preservation at the back edge).
@@ -637,7 +768,11 @@ func (f *Frame) cutLoop(n *xnode, li *loopInfo, st *execState) {
 			e.assume(tb.Implies(st.reach, tb.And(tb.Sle(tb.ConstI(-1, v.sort.W), v), tb.Slt(v, tb.ConstU(1<<62, v.sort.W)))))
 		}
 	}
+	memBefore := st.mem
 	st.mem = f.havocLoopMem(li, st)
+	if st.mem != memBefore {
+		st.gh = e.freshGhost(fmt.Sprintf(".L%d", li.ordinal))
+	}
 	st.st.cut = true
 	// 3. assume invariant
 	if li.spec != nil {
@@ -744,6 +879,7 @@ func (f *Frame) backEdge(n *xnode, li *loopInfo, st *execState, cond *Term) {
 func (f *Frame) execBlock(n *xnode, st *execState) {
 	e := f.e
 	tb := e.tb
+	f.curBlock = n.blk
 	for _, ins := range n.blk.Instrs {
 		if st.reach.IsFalse() {
 			return
@@ -765,7 +901,7 @@ func (f *Frame) execBlock(n *xnode, st *execState) {
 			for i, r := range x.Results {
 				vals[i] = f.operand(st.env, r)
 			}
-			f.rets = append(f.rets, retRec{cond: st.reach, vals: vals, mem: st.mem, st: st.st})
+			f.rets = append(f.rets, retRec{cond: st.reach, vals: vals, mem: st.mem, gh: st.gh, st: st.st})
 			f.retPos = x.Pos()
 			return
 		case *ssa.Panic:
@@ -965,6 +1101,13 @@ func (f *Frame) edgeUnder(n *xnode, st *execState, v *ssa.BasicBlock, cond, bran
 	}
 	st2 := *st
 	st2.env = env2
+	if st.gh != nil {
+		g2 := &Ghost{sc: map[string]*Term{}, mm: st.gh.mm}
+		for k, t := range st.gh.sc {
+			g2.sc[k] = sub(t)
+		}
+		st2.gh = g2
+	}
 	f.edge(n, &st2, v, cond)
 }
 
@@ -1032,7 +1175,7 @@ func (f *Frame) edge(n *xnode, st *execState, v *ssa.BasicBlock, cond *Term) {
 			fl.bounded = true
 		}
 	}
-	t.in = append(t.in, edgeIn{cond: cond, env: cp, mem: st.mem, from: n.blk, st: fl})
+	t.in = append(t.in, edgeIn{cond: cond, env: cp, mem: st.mem, gh: st.gh, from: n.blk, st: fl})
 }
 
 // operand evaluates an SSA operand in env.
